@@ -67,6 +67,7 @@ def srSec : Bytes → Bytes → List SrStep → Bytes
   ```
   func (ro *RedisOutput) SetRunId(ctx, id) error {
       if ro.cfg.RunId == id { return nil }
+      if ro.cfg.CheckpointName == "" { ro.cfg.RunId = id; return nil }
       return util.RetryLinearJitter(ctx, func() error {
           cli, err := ro.NewRedisConn(ctx) …                                   -- `dial`
           if pending := ro.pendingRunId; pending != "" && pending != id {      -- `finStep`
@@ -122,8 +123,12 @@ def retryLoopP (ver loc id : Bytes) : RunIdStP → List AttemptP → RunIdStP ×
     let r := attemptP ver loc s id a
     if r.2 then (r.1, true) else retryLoopP ver loc id r.1 rest
 
+/-- `if ro.cfg.CheckpointName == "" { ro.cfg.RunId = id; return nil }` (second /repo fix of session 5): an output without
+    bookkeeping on the target (resumeFromBreakPoint off, not bidirectional) relabels nothing -/
 def setRunIdP (ver loc : Bytes) (s : RunIdStP) (id : Bytes) (as : List AttemptP) : RunIdStP × Bool :=
-  if s.runId = id then (s, true) else retryLoopP ver loc id s (as.take 3)
+  if s.runId = id then (s, true)
+  else if loc = [] then ({ s with runId := id }, true)
+  else retryLoopP ver loc id s (as.take 3)
 
 inductive SrStepP
   | call (as : List AttemptP)
